@@ -23,7 +23,13 @@ mod c09;
 mod c10;
 mod c11;
 mod c12;
+mod c16;
 mod c17;
+mod c18;
+mod c19;
+mod c20;
+mod spec_lh5;
+mod spec_sig;
 
 use report::{Ctx, Evidence, Tier};
 use std::cell::RefCell;
@@ -70,7 +76,11 @@ fn checks() -> Vec<(&'static str, CheckFn)> {
         ("C10", c10::run as CheckFn),
         ("C11", c11::run as CheckFn),
         ("C12", c12::run as CheckFn),
+        ("C16", c16::run as CheckFn),
         ("C17", c17::run as CheckFn),
+        ("C18", c18::run as CheckFn),
+        ("C19", c19::run as CheckFn),
+        ("C20", c20::run as CheckFn),
         ("REFQUAL", refqual::run as CheckFn),
     ]
 }
